@@ -146,6 +146,10 @@ def source(tokeniser: 'Tokeniser') -> Generator[Flow4Source | Flow6Source, None,
         ip, netmask, offset = data.split('/')
         tokeniser.afi = AFI.ipv6
         yield Flow6Source.make_prefix6(IP.pton(ip), int(netmask), int(offset))
+    else:
+        # nothing matched: without this the component was silently left out and the rest of the rule
+        # was sent - `source 2001:db8::1; destination-port =80` became "port 80 from anybody"
+        raise ValueError(f'"{data}" is not a prefix a flow can match (expected <ipv4>/<length>, <ipv6>/<length> or <ipv6>/<length>/<offset>)')
 
 
 def destination(tokeniser: 'Tokeniser') -> Generator[Flow4Destination | Flow6Destination, None, None]:
@@ -170,6 +174,10 @@ def destination(tokeniser: 'Tokeniser') -> Generator[Flow4Destination | Flow6Des
         ip, netmask, offset = data.split('/')
         tokeniser.afi = AFI.ipv6
         yield Flow6Destination.make_prefix6(IP.pton(ip), int(netmask), int(offset))
+    else:
+        # nothing matched: without this the component was silently left out and the rest of the rule
+        # was sent - `source 2001:db8::1; destination-port =80` became "port 80 from anybody"
+        raise ValueError(f'"{data}" is not a prefix a flow can match (expected <ipv4>/<length>, <ipv6>/<length> or <ipv6>/<length>/<offset>)')
 
 
 # Expressions
